@@ -110,7 +110,89 @@ class Rope:
                 out.append(p)
         return out
 
+    def _match_str(self, s):
+        """Condition under which this rope renders exactly the concrete string s (False if impossible)."""
+        parts = self._flat()
+
+        def rec(i, p, conds):
+            if i == len(parts):
+                return core.And(*conds) if p == len(s) else False
+            part = parts[i]
+            if _isinstance(part, str):
+                if s[p:p + len(part)] != part:
+                    return False
+                return rec(i + 1, p + len(part), conds)
+            val, conv, spec = part
+            if _isinstance(val, SymText):
+                n = len(val)
+                if spec != "" or conv not in (-1, 115):
+                    raise Unsupported("rope match: formatted text field")
+                return rec(i + 1, p + n, conds + [val == s[p:p + n]]) if p + n <= len(s) else False
+            if not _isinstance(val, (SymInt, SymBool)):
+                raise Unsupported("rope match: field of type %s" % type(val).__name__)
+            if spec == "c":
+                if p >= len(s):
+                    return False
+                return rec(i + 1, p + 1, conds + [val == ord(s[p])])
+            if spec in ("d", ""):
+                alts = []
+                q = p
+                if q < len(s) and s[q] == "-":
+                    q += 1
+                start = q
+                while q < len(s) and s[q].isdigit() and s[q].isascii():
+                    q += 1
+                    txt = s[p:q]
+                    if len(txt.lstrip("-")) > 1 and txt.lstrip("-")[0] == "0":
+                        break
+                    r = rec(i + 1, q, conds + [val == int(txt)])
+                    if r is not False:
+                        alts.append(r)
+                return core.Or(*alts) if alts else False
+            raise Unsupported("rope match: spec %r" % (spec,))
+
+        return rec(0, 0, [])
+
+    def find(self, sub, *a):
+        """Position of a constant substring; fields are single characters / numbers and cannot contain letters."""
+        if a or not _isinstance(sub, str) or not sub or sub.strip("0123456789-") == "":
+            raise Unsupported("rope find")
+        pos = 0
+        known = True
+        for part in self._flat():
+            if _isinstance(part, str):
+                k = part.find(sub)
+                if k >= 0:
+                    if not known:
+                        return 1  # found; the exact offset is not determined (callers only test >= 0)
+                    return pos + k
+                pos += len(part)
+            else:
+                val, conv, spec = part
+                if _isinstance(val, SymText):
+                    if len(sub) <= len(val):
+                        raise Unsupported("rope find: substring may lie inside a symbolic text field")
+                    pos += len(val)
+                elif spec == "c":
+                    if len(sub) == 1:
+                        raise Unsupported("rope find: single character")
+                    pos += 1
+                else:
+                    known = False
+        return -1
+
+    def __contains__(self, sub):
+        return self.find(sub) >= 0
+
+    def startswith(self, p):
+        parts = self._flat()
+        if parts and _isinstance(parts[0], str) and (len(parts[0]) >= len(p) or not parts[0].startswith(p[:len(parts[0])]) ):
+            return parts[0].startswith(p)
+        raise Unsupported("rope startswith")
+
     def __eq__(self, o):
+        if _isinstance(o, str):
+            return self._match_str(o)
         if _isinstance(o, Rope):
             a, b = self._flat(), o._flat()
             if len(a) != len(b):
@@ -127,8 +209,6 @@ class Rope:
                         raise Unsupported("rope eq (spec)")
                     cs.append(x[0] == y[0])
             return core.And(*cs)
-        if _isinstance(o, str):
-            raise Unsupported("rope == str")
         return False
 
     def __ne__(self, o):
